@@ -199,6 +199,8 @@ def run(ck):
                       "MJML allows (column, second column, group, wrapper, hero; raw also between sections) - exhaustive; (2) 5 entity spellings x 9 content "
                       "slots incl. title and preview - exhaustive; (3) generated full-grammar documents with a unique sentinel per slot. Judged on the "
                       "text of the standard reading computed by the extracted Coq function. Non-trivial: >= 4 slots (all matrix cases count).")
+    from checks import emitlib
+    emitlib.tie(ck, hb, failing, ok, 160 if ck.quick else 4000)
     common.report(ck, failing, ok, mlog, "coq/Properties/C04.v (cone) no longer compiles", limit=5, key=lambda w: w)
 
 
